@@ -42,6 +42,8 @@ class Contract:
         self.invariants: dict[int, list[Clause]] = {}
         self.loop_modifies: dict[int, list] = {}
         self.decreases: dict[int, ast.expr] = {}
+        self.logs: list[tuple[str, list]] = []  # events the call appends to the external-call log (assumed contracts)
+        self.observes: dict[str, str] = {}  # spec variable -> external method whose (first) result it denotes
         self.captures: dict[str, ast.expr] = {}
         self.types: dict[str, ast.expr] = {}
         self.assumptions: list[str] = []
@@ -87,6 +89,11 @@ class Contract:
                 self.loop_modifies.setdefault(k, []).extend(call.args[1:])
             elif name == "decreases":
                 self.decreases[call.args[0].value] = call.args[1]
+            elif name == "logs":
+                self.logs.append((call.args[0].value, list(call.args[1:])))
+            elif name == "observes":
+                for k in call.keywords:
+                    self.observes[k.arg] = k.value.value
             elif name == "captures":
                 for k in call.keywords:
                     self.captures[k.arg] = k.value
@@ -105,7 +112,7 @@ class Contract:
         return len(self.requires) + len(self.ensures) + len(self.raises) + len(self.may_raise) + len(self.ensures_raise)
 
 
-CLAUSE_NAMES = {"requires", "ensures", "raises", "may_raise", "ensures_raise", "modifies", "invariant", "loop_modifies",
+CLAUSE_NAMES = {"logs", "observes", "requires", "ensures", "raises", "may_raise", "ensures_raise", "modifies", "invariant", "loop_modifies",
                 "decreases", "captures", "types", "assumes", "option"}
 
 
@@ -159,6 +166,10 @@ class ContractDB:
         self.assumptions: list[str] = []
         self.files: list[str] = []
         self.spec_funcs: dict[str, ast.FunctionDef] = {}
+        self.external_returns: dict[str, ast.expr] = {}  # external method name -> type expression of its result
+        self.pure_modules: dict[str, str] = {}
+        self.ext_module: str | None = None
+        self.pure_functions: dict[str, ast.expr] = {}  # repo/external function -> result type; modelled as an uninterpreted function
         self.harnesses: dict[str, Harness] = {}
         self.stub_classes: dict[str, dict] = {}  # shapes of objects from outside the repository (process handles ...)
         self.owned_fields: set[str] = set()  # container-valued fields with an ownership ghost (container -> its object)
@@ -187,6 +198,17 @@ class ContractDB:
                     d = self.field_types.setdefault(c.args[0].value, {})
                     for k in c.keywords:
                         d[k.arg] = k.value
+                elif n == "external_returns":
+                    for k in c.keywords:
+                        if k.arg == "module":
+                            self.ext_module = k.value.value
+                        else:
+                            self.external_returns[k.arg] = k.value
+                elif n == "pure_function":
+                    kw = {k.arg: k.value for k in c.keywords}
+                    self.pure_functions[c.args[0].value] = kw.get("returns")
+                    if "module" in kw:
+                        self.pure_modules[c.args[0].value] = kw["module"].value
                 elif n == "stub_class":
                     self.stub_classes[c.args[0].value] = {k.arg: k.value for k in c.keywords}
                 elif n == "owned_field":
